@@ -135,6 +135,9 @@ def plan_seq(pid, tier, seed, ncpu):
         # concurrent clauses
         if pid == "C10":
             js += con_jobs(bindirs["dbg0"], workdir, known, pid, "chase", seed + 9, 2, programs=scale(tier, 240, 6000), schedules=3, variant="dbg0")
+        if pid == "C10":
+            # a maintainer parked inside a run while others queue more than a flush point of writes; the explicit sync() that follows must leave nothing behind
+            js += con_jobs(bindirs["dbg"], workdir, known, pid, "park", seed, 1, programs=scale(tier, 120, 2400), schedules=4)
         if pid in ("C03", "C10"):
             # the release profile has no debug_assert: counter drift shows as drift, not as a panic
             js += con_jobs(bindirs["rel"], workdir, known, pid, "baton", seed + 2, 2, programs=scale(tier, 800, 40000), schedules=scale(tier, 10, 20), variant="rel")
@@ -161,6 +164,8 @@ def plan_seq(pid, tier, seed, ncpu):
             if tier == "thorough":
                 js += con_jobs(bindirs["rel"], workdir, known, pid, "burstn", seed + 5, 4, rounds=200, variant="rel")
         if pid == "C16":
+            # chase / storm programs with iterations among the reads: every yielded pair is judged against the call/return history like a get
+            js += con_jobs(bindirs["dbg"], workdir, known, pid, "chase", seed, 2, programs=scale(tier, 200, 6000), schedules=3)
             js += con_jobs(bindirs["dbg"], workdir, known, pid, "iter", seed, 4, rounds=scale(tier, 40, 1000))
             js += con_jobs(bindirs["dbg"], workdir, known, pid, "baton", seed, 3, programs=scale(tier, 1200, 30000), schedules=10)
             js += con_jobs(bindirs["dbg"], workdir, known, pid, "stress", seed, 1, programs=scale(tier, 150, 4000), schedules=5)
@@ -168,6 +173,8 @@ def plan_seq(pid, tier, seed, ncpu):
 
     if pid in ("C03", "C07", "C10"):
         extra_floors = {"quiescence_checks": 1000 * m10}
+        if pid == "C10":
+            extra_floors["explicit_syncs_judged"] = 300 * m10
         if pid == "C03":
             extra_floors["refills_performed"] = 100 * m10
         extra_rule = (" Concurrent clause: small random programs under the serialized scheduler and free-running with injected delays; after join + sync() "
@@ -177,11 +184,13 @@ def plan_seq(pid, tier, seed, ncpu):
         extra_floors = {"burst_overshoot_samples": 10 * m10}
         extra_rule = (" Overshoot clause: 1-8 threads x 3840 un-synced inserts of distinct unit-weight keys (clock within / beyond the periodical-sync interval, "
                       "with and without delays injected at the maintenance phase points); each thread samples the map size right after its own insert: never above "
-                      "max_capacity + write queue (384) + 2 x threads.")
+                      "max_capacity + write queue (384) + 2 x threads (the sample is a sum over the map's shards; inserts that began while it was read are taken off it).")
     if pid == "C16":
-        extra_floors = {"iterations_overlapping_a_write_of_a_yielded_key": 1000 * m10}
+        extra_floors = {"iterations_overlapping_a_write_of_a_yielded_key": 1000 * m10, "iteration_items_judged_against_history": 1000 * m10}
         extra_rule = (" Concurrent clause: 1-4 writers update a fixed key set (1..200 keys around shard multiples) with unique values while 1-3 threads iterate: every "
-                      "key exactly once, value written by an insert that began before the iteration ended and not replaced by a write that completed before it began.")
+                      "key exactly once, value written by an insert that began before the iteration ended and not replaced by a write that completed before it began. "
+                      "Random, contention and invalidate_all-storm programs carry iterations among their reads; every pair an iteration yields is judged against the call/return "
+                      "history like a get spanning the iteration (no value replaced, invalidated or expired by an operation that completed before it began; no key twice).")
     fl = {k: int(v * (1 if tier == "quick" else min(mult, 10))) for k, v in floors.items()}
     fl.update(extra_floors)
     variants = ["dbg"] + (["rel"] if pid in ("C03", "C04", "C10") else []) + (["dbg0"] if pid in ("C04", "C10") else [])
@@ -279,13 +288,14 @@ def plan_c09(pid, tier, seed, ncpu):
 
     m = 1 if tier == "quick" else 10
     return dict(variants=["dbg"] + (["rel"] if tier == "thorough" else []), jobs=jobs,
-                floors={"backoff_events": 100 * m, "maintainer_parks": 100 * m, "bursts_within_sync_interval": 4 * m, "bursts_beyond_sync_interval": 4 * m,
+                floors={"backoff_events": 100 * m, "maintainer_parks": 100 * m, "explicit_syncs_judged": 1000 * m, "bursts_within_sync_interval": 4 * m, "bursts_beyond_sync_interval": 4 * m,
                         "maintenance_runs_during_bursts": 100 * m, "scheduler_steps": 100000 * m},
                 rule="bounded progress instead of unbounded liveness: (1) small programs and contention programs (one thread may be parked inside maintenance at a phase point "
                      "while others issue > write-queue-size inserts) under the serialized scheduler: deadlock = unfinished threads but none runnable, livelock = step budget "
                      "(20000 + 4000 x ops) exhausted; (2) single-threaded bursts of 10 x 384 un-synced operations in both housekeeping regimes (clock within / beyond the "
                      "500 ms periodical-sync interval): more than 2 retries of one write op at the back-off hook, or no maintenance run at all, is a violation; (3) at every "
-                     "quiescence the maintenance flag must be clear and the queues drained by sync(); (4) seeded single-threaded histories under a progress guard: a "
+                     "quiescence the maintenance flag must be clear and the queues drained by one sync(), and an explicit sync() during a run may leave no more write operations queued than "
+                     "inserts / invalidates of other threads overlapped it; (4) seeded single-threaded histories under a progress guard: a "
                      "maintenance batch loop that runs more than 50000 iterations within one call (the loops are bounded by batch 500 x 5 repeats), or a write op retried more "
                      "than 100 times with no other thread alive, never returns. Non-trivial: a contention program or a burst; distinct by program "
                      "fingerprint / (seed, round).",
@@ -531,7 +541,7 @@ def plan_c08_c11(pid, tier, seed, ncpu):
         js += seq_jobs(d, workdir, known, pid, "capacity", scale(tier, 40000, 800000), 50, seed, 2, extra=["--drop-percent", "10"])
         js += con_jobs(d, workdir, known, pid, "baton", seed, 2, programs=scale(tier, 800, 20000), schedules=10)
         js += con_jobs(d, workdir, known, pid, "stress", seed, 2, programs=scale(tier, 160, 6000), schedules=5)
-        js += con_jobs(d, workdir, known, pid, "park", seed, 1, programs=scale(tier, 30, 600), schedules=4)
+        js += con_jobs(d, workdir, known, pid, "park", seed, 1, programs=scale(tier, 120, 2400), schedules=4)
         js += deq_jobs(d, workdir, known, pid, seed, 1, scale(tier, 40000, 800000))
         if pid == "C08":
             js += sketch_jobs(d, workdir, known, pid, seed, 2, scale(tier, 2000000, 30000000), big=thorough)
@@ -562,7 +572,7 @@ def plan_c08_c11(pid, tier, seed, ncpu):
     floors = {
         "lookups_get_hit": 1000 * m, "updates": 1000 * m, "entries_left_invalidated": 1000 * m, "entries_left_ttl_expired": 1000 * m, "entries_left_tti_expired": 1000 * m,
         "entries_left_for_capacity": 1000 * m, "admission_decisions_admit": 300 * m, "caches_dropped_with_queued_ops": 100 * m, "deque_move_to_back": 1000 * m,
-        "deque_unlink_and_drop": 1000 * m, "deque_cursor_steps_mid_iteration": 1000 * m, "quiescence_checks": 500 * m,
+        "deque_unlink_and_drop": 1000 * m, "deque_cursor_steps_mid_iteration": 1000 * m, "quiescence_checks": 500 * m, "explicit_syncs_judged": 300 * m,
         "asan_lookups_get_hit": 1000, "asan_entries_left_invalidated": 1000, "asan_entries_left_ttl_expired": 300, "asan_entries_left_tti_expired": 300,
         "asan_entries_left_for_capacity": 300, "asan_caches_dropped_with_queued_ops": 100, "asan_deque_unlink_and_drop": 1000, "asan_quiescence_checks": 100,
         "miri_ops": 100, "miri_deque_unlink_and_drop": 10, "miri_deque_move_to_back": 10, "miri_quiescence_checks": 2,
@@ -580,7 +590,8 @@ def plan_c08_c11(pid, tier, seed, ncpu):
     else:
         rule = ("instrumented key and value types carry a unique object id; a registry counts constructions, clones and drops and flags a second drop. At every quiescent point the "
                 "number of live key objects and of live value objects must equal the number of entries physically held (hook snapshot); after maintenance no invalidated entry may "
-                "still be held; after dropping the last handle (also mid-history with operations still queued, also after concurrent programs) nothing may be alive; "
+                "still be held, and an explicit sync() may leave no more write operations queued than inserts / invalidates of other threads overlapped it (a maintainer is parked inside "
+                "a run while others queue more than a flush point of writes); after dropping the last handle (also mid-history with operations still queued, also after concurrent programs) nothing may be alive; "
                 "LeakSanitizer / Miri report leaked list nodes at process exit. Same workloads as C08, incl. the intrusive-list driver with element drop counts. Non-trivial: "
                 "a cache dropped with queued ops, or a history with removals; distinct by fingerprint / case seed.")
     return dict(variants=["dbg", "asan", "miri"] + (["tsan", "rel"] if thorough else []), jobs=jobs, floors=floors, rule=rule,
